@@ -477,7 +477,8 @@ impl EditConfig {
         source_rpus: &Vec<DoviRpu>,
     ) -> Result<()> {
         println!("Replacing metadata levels from second RPU...");
-        ensure!(rpus.len() == source_rpus.len());
+        // Removed frames are skipped below: the source list pairs with the frames that remain
+        ensure!(rpus.iter().flatten().count() == source_rpus.len());
 
         let zip_iter = rpus.iter_mut().filter_map(|e| e.as_mut()).zip(source_rpus);
 
